@@ -217,9 +217,14 @@ func ntreeMain(args []string) error {
 				fl = append(fl, fmt.Sprintf("A:%d:%d", a, ret))
 			}
 		}}
-		cerr := tx.Commit()
+		cerr, pan := safeCommit(tx)
 		bolt.VerifRebalanceHook = nil
 		bolt.VerifHook = nil
+		if pan != "" {
+			fmt.Fprintf(w, "panic %s\nend\n", pan)
+			go db.Close() // the writer lock may still be held: do not wait for it
+			continue
+		}
 		if cerr != nil {
 			db.Close()
 			return cerr
